@@ -50,6 +50,7 @@ func checkC09(p *Prog, c *Check) {
 	if len(roots) == 0 {
 		return
 	}
+	noMempoolReads(p, c, "C09-DET.mempool")
 	c.Floor("C09.roots", len(roots), 10)
 	// The persist-to-disk timer: wall-clock reads are tolerated only in functions that the ABCI entry
 	// points reach exclusively through Commit (the "commit-only" set), where
@@ -155,7 +156,7 @@ func checkC09(p *Prog, c *Check) {
 		if src != "time.Now" && src != "time.Since" {
 			return "", false
 		}
-		if !commitOnly[origin(fn)] {
+		if !commitOnly[origin(fn)] && origin(fn) != cm {
 			return "", false
 		}
 		val := call.Value()
